@@ -1,183 +1,185 @@
 (* Properties/C13.v — ARP spoofing is confined to hunted hosts and undone on StopHunt.
-   Only statements, each closed by [exact] of a lemma proved in Proofs/ArpSpoof.v.
-   Model: Model/ArpSpoof.v (event system transcribed from handlers/arp_spoofer). *)
-From PV Require Import Base.Prelude Model.ArpSpoof Spec.ArpSpoof Proofs.ArpSpoof Proofs.ArpSpoofMonitor Proofs.ArpSpoofTimed.
+   Only statements, each closed by [exact] of a lemma proved in Proofs/ArpSpoof*.v.
+   Model: Model/ArpSpoof.v — an event system transcribed from handlers/arp_spoofer in which a spoof-loop
+   iteration is three events (Lookup under the lock, Check of h.closed, Send = the WriteTo, which may
+   fail), so that API calls, received packets, Close and other loops interleave between them; the public
+   send API and raw received frames are events too.  All theorems quantify over ALL event sequences. *)
+From PV Require Import Base.Prelude Base.Slice Model.ArpSpoof Spec.ArpSpoof
+  Proofs.ArpSpoof Proofs.ArpSpoofLoops Proofs.ArpSpoofRx.
 Open Scope N_scope.
 
 (* ---- confinement ----
-   Full strength: in every run (any event sequence of any length from the initial state) every emitted
-   forged frame (sender IP = router IP, sender MAC = our MAC) is addressed to a MAC that is in the hunt
-   list when it is emitted.  Full since the repair of K1 (/repo: no probe-reject for the router's own
-   address); before it the statement was refuted by a probe for the router address from an unhunted MAC
-   holding another offer (refutation on the unrepaired model: verif commit dd6b3e8). *)
+   In every run, every forged frame (sender IP = router IP, sender MAC = our MAC) that leaves is
+     (a) asked for by the CALLER through the public send API — only AnnounceTo(dst, routerIP),
+         RequestRaw(dst, {ourMAC, routerIP}, _) and Reply(dst, {ourMAC, routerIP}, _) can do that, it is the
+         caller's doing (C13_api_forges_iff: no other public call ever emits a forged frame) —, or
+     (b) addressed to a MAC that is in the hunt list at that moment, or
+     (c) the write of a spoof loop whose iteration DECIDED that frame under the lock (the loop is "armed":
+         its lookup found the MAC in the hunt list), StopHunt having returned in between.
+   (c) is real: "in the hunt list at the moment of emission" is refuted by that interleaving.  The property
+   text supports the decision-time reading: it forbids forged frames "after" the restoring packet, and (c)
+   is bounded — C13_stale_bound: once a MAC is out of the hunt list, at most one forged frame per loop that
+   was armed for it when StopHunt returned can still reach it, for ever (until it is hunted again). *)
 Theorem C13_confined : forall c evs s e out f,
   cfg_ok c ->
   In (s, e, out) (trace c init_state evs) -> In f out -> forged c f = true ->
-  hunted s (fedst f) = true.
+  caller_forged c e = true \/
+  hunted s (fedst f) = true \/
+  (exists i lp, e = Send i /\ nth_error (loops s) i = Some lp /\ armed_pc c (fedst f) (lpc lp) = true).
 Proof. exact confined. Qed.
 Print Assumptions C13_confined.
 
-Example C13_confined_nonvacuous :
-  cfg_ok wit_cfg /\
-  outputs wit_cfg init_state wit_hunt_run =
-    [[]; [announce wit_cfg wit_m1]; [mkFrame 2 wit_m1 (host_mac wit_cfg) (router_ip wit_cfg) wit_m1 3232235522]] /\
-  outputs wit_cfg init_state
-    [SetOffer wit_m3 (Some 3232235522); RxArp (mkPkt 1 wit_m3 wit_m3 0 0 3232235531);
-     RxArp (mkPkt 1 wit_m3 wit_m3 0 0 3232235523)] =
-    [[]; []; [probe_reject wit_cfg (mkPkt 1 wit_m3 wit_m3 0 0 3232235523)]].
-Proof. exact confined_nonvacuous. Qed.
-Print Assumptions C13_confined_nonvacuous.
+Theorem C13_confined_at_emission_refuted :
+  exists c evs s e out f,
+    cfg_ok c /\ In (s, e, out) (trace c init_state evs) /\ In f out /\ forged c f = true /\
+    caller_forged c e = false /\ hunted s (fedst f) = false.
+Proof. exact confined_at_emission_refuted. Qed.
+Print Assumptions C13_confined_at_emission_refuted.
+
+Theorem C13_api_forges_iff : forall c s e f,
+  cfg_ok c -> is_api_send e = true -> In f (snd (step c s e)) ->
+  (forged c f = true <-> caller_forged c e = true).
+Proof. exact api_forges_iff. Qed.
+Print Assumptions C13_api_forges_iff.
+
+(* From ANY state in which m is not hunted, along ANY continuation without a StartHunt of m: the forged frames
+   addressed to m that the handler emits on its own (caller-forged calls not counted), plus the loops still
+   armed for m at the end, never exceed the loops armed for m at the start.  With armed = 0: none at all. *)
+Theorem C13_stale_bound : forall c m evs s,
+  cfg_ok c -> hunted s m = false -> none_of (is_start_of m) evs ->
+  (forged_total c m (trace c s evs) + armed c m (final c s evs) <= armed c m s)%nat.
+Proof. exact stale_bound. Qed.
+Print Assumptions C13_stale_bound.
+
+Example C13_run_nonvacuous :
+  let c := wit_cfg in
+  outputs c init_state
+    [StartHunt wit_a1; Lookup 0; Check 0; Send 0;
+     RxArp (mkPkt 1 wit_m1 wit_m1 3232235522 0 3232235531);
+     Lookup 0; StopHunt wit_m1; Check 0; Send 0;
+     Lookup 0; Check 0; Send 0;
+     Lookup 0; Check 0; Send 0;
+     ApiAnnounceTo wit_m2 3232235531; ApiRequest 3232235522]
+  = [[]; []; []; [announce c wit_m1];
+     [mkFrame 2 wit_m1 (host_mac c) (router_ip c) wit_m1 3232235522];
+     []; []; []; [announce c wit_m1];
+     []; []; [restore c wit_m1];
+     []; []; [];
+     [announce c wit_m2]; [request_to c MAC_BCAST 3232235522]].
+Proof. exact run_nonvacuous. Qed.
+Print Assumptions C13_run_nonvacuous.
 
 (* ---- StartHunt is idempotent per MAC (any state, reachable or not) ---- *)
 Theorem C13_start_idempotent : forall c s a,
   hunted s (amac a) = true -> step c s (StartHunt a) = (s, []).
-Proof. exact start_idempotent. Qed.
+Proof. intros c s a H. simpl. unfold start_hunt. unfold hunted in H. rewrite H. reflexivity. Qed.
 Print Assumptions C13_start_idempotent.
 
-Theorem C13_start_fresh : forall c s a,
-  hunted s (amac a) = false ->
-  exists s', step c s (StartHunt a) = (s', []) /\ hunted s' (amac a) = true /\
-             loops s' = loops s ++ [mkLoop a true] /\ closed s' = closed s.
-Proof. exact start_fresh. Qed.
-Print Assumptions C13_start_fresh.
-
-(* ---- receive path: probe-reject and spoof reply, for EVERY state and EVERY packet ----
-   The answer of ProcessPacket is exactly what the spec predicates (Spec/ArpSpoof.v, written from the
-   property text) demand: a probe is answered with the probe-reject iff the probing MAC holds an offer
-   different from the probed address and the probed address is in the home LAN (and is neither link-local
-   — the handler's documented convention — nor the router's own address, which confinement forbids);
-   any other packet is answered iff it is a who-has-router
-   request from a hunted MAC, and then with the spoof reply; a closed handler answers nothing.
-   The state never changes. *)
+(* ---- receive path, for EVERY state and EVERY packet ----
+   ProcessPacket hands the connection exactly the frame the spec predicates (Spec/ArpSpoof.v, written from
+   the property text) demand, or nothing: a probe gets the probe-reject iff the probing MAC holds an offer
+   different from the probed address and the probed address is in the home LAN (and is neither link-local —
+   the handler's documented convention — nor the router's own address, which confinement forbids); any other
+   packet is answered iff it is a who-has-router request from a hunted MAC, with the spoof reply; a closed
+   handler answers nothing.  (wr2: the frame reaches the wire unless the connection refuses the write.) *)
 Theorem C13_probe_reject_iff : forall c s p,
-  step c s (RxArp p) =
-  (s, if closed s then []
-      else if sp_is_probe p
-      then (if sp_reject_cond c (offer_of (psmac p) (offers s)) p then [probe_reject c p] else [])
-      else (if sp_asks_router c p && hunted s (psmac p) then [spoof_reply c p] else [])).
+  step c s (RxArp p) = match rx_answer c s p with Some f => wr2 s f | None => (s, []) end.
 Proof. exact rx_spec. Qed.
 Print Assumptions C13_probe_reject_iff.
 
-(* ---- StopHunt is undone ----
-   s0 is the state after ANY event sequence `pre` in which loop i, started for address a, is running and
-   the handler is open.  After StopHunt of a's MAC and any events `mid` without a wake-up of loop i, a Close
-   or a new StartHunt of that MAC, the NEXT wake-up of loop i emits exactly the packet restoring the router's
-   real MAC at a's MAC, loop i has returned, and in every continuation `post` without a StartHunt of that MAC
-   no forged frame is addressed to it any more.
-   Full strength since the repair of DESIGN #27 (loop membership by MAC); before the repair the statement
-   was refuted by two hunted MACs sharing an IPv4 address (verif commit e3a3954 has that refutation). *)
-Theorem C13_stop_undone : forall c pre a i mid post,
+(* raw frames: ProcessPacket never panics, whatever bytes Parse hands over, and a frame that is not a valid
+   ARP packet (EtherType 0x0806, >= 28 bytes, header 00 01 08 00 06 04 — decoded here by the spec's own
+   decoder) is a no-op; a valid one is exactly its decoded packet *)
+Theorem C13_process_packet_total : forall c s et b,
+  process_raw c s et b <> Panic /\ process_raw c s et b <> Fuel.
+Proof. exact process_raw_no_panic. Qed.
+Print Assumptions C13_process_packet_total.
+
+Theorem C13_raw_frames : forall c s et b,
+  step c s (RxRaw et b) = match sp_decode et b with Some p => step c s (RxArp p) | None => (s, []) end.
+Proof. exact raw_spec. Qed.
+Print Assumptions C13_raw_frames.
+
+(* ---- StopHunt is undone, under every interleaving ----
+   s1: ANY state in which a's MAC is not hunted (e.g. after StopHunt), the handler is open, and loop i (started
+   for a) stands at its select.  Its next iteration — Lookup i, Check i, Send i with arbitrary events of
+   everybody else in between (x1, x2, x3: no step of loop i itself; no Close before the check; no StartHunt
+   of that MAC before the lookup; refused writes allowed) — hands the connection exactly the packet restoring
+   the router's MAC (it reaches the wire unless that very write is refused) and the loop has returned.
+   How the loop gets to its select: C13_iteration_completes (at most two own steps, at most one frame); how
+   many forged frames can still reach the MAC meanwhile: C13_stale_bound (the ones already decided). *)
+Theorem C13_stop_undone : forall c s1 a i p x1 x2 x3,
   cfg_ok c ->
-  let s0 := final c init_state pre in
-  loop_is s0 i a true -> closed s0 = false ->
-  none_of (is_wake_of i) mid -> none_of is_close mid -> none_of (is_start_of (amac a)) mid ->
-  none_of (is_start_of (amac a)) post ->
-  let s1 := final c s0 (StopHunt (amac a) :: mid) in
-  let s2 := set_loops s1 (kill i (loops s1)) in
-  step c s1 (Wake i) = (s2, [restore c (amac a)]) /\
-  loop_is s2 i a false /\
-  forall s e out f, In (s, e, out) (trace c s2 post) -> In f out -> forged c f = true ->
-    fedst f <> amac a.
-Proof. intros c pre. exact (stop_undone c (final c init_state pre)). Qed.
+  loop_at s1 i a p -> at_select p = true -> closed s1 = false -> hunted s1 (amac a) = false ->
+  none_of (is_loop_event i) x1 -> none_of is_close x1 -> none_of (is_start_of (amac a)) x1 ->
+  none_of (is_loop_event i) x2 -> none_of is_close x2 ->
+  none_of (is_loop_event i) x3 ->
+  let s4 := final c s1 (x1 ++ [Lookup i] ++ x2 ++ [Check i] ++ x3) in
+  exists s5,
+    step c s4 (Send i) = (s5, if Nat.eqb (failn s4) 0 then [restore c (amac a)] else []) /\
+    loop_at s5 i a PDone.
+Proof. exact stop_undone. Qed.
 Print Assumptions C13_stop_undone.
 
-Example C13_stop_undone_nonvacuous :
-  let c := wit_cfg in
-  let a := mkAddr wit_m1 3232235522 in
-  let s0 := final c init_state [StartHunt a; Wake 0; StartHunt (mkAddr wit_m2 3232235522); Wake 1] in
-  let mid := [RxArp (mkPkt 1 wit_m1 wit_m1 3232235522 0 3232235531); Wake 1] in
-  loop_is s0 0 a true /\ closed s0 = false /\
-  none_of (is_wake_of 0) mid /\ none_of is_close mid /\ none_of (is_start_of (amac a)) mid /\
-  outputs c s0 (StopHunt (amac a) :: mid ++ [Wake 0; Wake 0; Wake 1]) =
-    [[]; []; [announce c wit_m2]; [restore c wit_m1]; []; [announce c wit_m2]].
-Proof. exact stop_undone_nonvacuous. Qed.
-Print Assumptions C13_stop_undone_nonvacuous.
+Theorem C13_iteration_completes : forall c s i a p,
+  loop_at s i a p ->
+  match p with
+  | PLooked _ =>
+      exists q, loop_at (fst (step c s (Check i))) i a q /\ snd (step c s (Check i)) = [] /\
+                (is_done q = true \/ exists f cont, q = PSend f cont)
+  | PSend f cont =>
+      exists q, loop_at (fst (step c s (Send i))) i a q /\ (at_select q = true \/ is_done q = true) /\
+                (snd (step c s (Send i)) = [f] \/ snd (step c s (Send i)) = [])
+  | _ => True
+  end.
+Proof. exact iteration_completes. Qed.
+Print Assumptions C13_iteration_completes.
 
-(* while its MAC is hunted and the handler is open, a running loop's wake-up sends exactly one forged
-   announcement, to its own MAC, and the loop keeps running ("periodically while hunted") *)
-Theorem C13_hunted_wake_announces : forall c s i a,
-  loop_is s i a true -> closed s = false -> hunted s (amac a) = true ->
-  step c s (Wake i) = (s, [announce c (amac a)]).
-Proof. exact hunted_wake_announces. Qed.
-Print Assumptions C13_hunted_wake_announces.
-
-(* ---- ... within one cycle ----
-   Timed runs; real time enters ONLY through the named fairness hypothesis [fair c P tr] (Model/ArpSpoof.v:
-   a running loop passes its select within one ticker period P while the run is observed).  If StopHunt of
-   a's MAC happens at time t while loop i (started for a) runs and the handler is open, the run is observed
-   until t+P, and until then there is neither a Close nor a new StartHunt of that MAC, then by t+P loop i has
-   woken up, that wake-up emitted exactly the restoring packet, and the loop has returned. *)
-Theorem C13_stop_undone_within_one_cycle : forall c P tr k t a i,
-  cfg_ok c -> time_ordered tr -> fair c P tr ->
-  nth_error tr k = Some (t, StopHunt (amac a)) ->
-  loop_is (state_before c tr k) i a true -> closed (state_before c tr k) = false ->
-  observed_until tr (t + P) ->
-  (forall j t' e, (k < j)%nat -> nth_error tr j = Some (t', e) -> (t' <= t + P)%Z ->
-                  is_close e = false /\ is_start_of (amac a) e = false) ->
-  exists j t', (k < j)%nat /\ nth_error tr j = Some (t', Wake i) /\ (t' <= t + P)%Z /\
-    output_at c tr j = Some [restore c (amac a)] /\
-    loop_is (state_before c tr (S j)) i a false.
-Proof. exact stop_undone_timed. Qed.
-Print Assumptions C13_stop_undone_within_one_cycle.
-
-Example C13_stop_undone_within_one_cycle_nonvacuous :
-  cfg_ok wit_cfg /\ time_ordered wit_timed /\ fair wit_cfg 6000 wit_timed /\
-  nth_error wit_timed 2 = Some (1000%Z, StopHunt (amac (mkAddr wit_m1 3232235522))) /\
-  loop_is (state_before wit_cfg wit_timed 2) 0 (mkAddr wit_m1 3232235522) true /\
-  closed (state_before wit_cfg wit_timed 2) = false /\
-  observed_until wit_timed (1000 + 6000) /\
-  output_at wit_cfg wit_timed 3 = Some [restore wit_cfg wit_m1] /\
-  output_at wit_cfg wit_timed 4 = Some [].
-Proof. exact stop_undone_timed_nonvacuous. Qed.
-Print Assumptions C13_stop_undone_within_one_cycle_nonvacuous.
-
-(* ... and in every run, while the handler is open every hunted MAC has a running loop of its own whose
-   next wake-up sends the forged announcement to exactly that MAC: with the fairness hypothesis, each
-   hunted host is re-poisoned every ticker period *)
-Theorem C13_hunted_has_loop : forall c evs m,
-  let s := final c init_state evs in
-  closed s = false -> hunted s m = true ->
-  exists i a, loop_is s i a true /\ amac a = m /\ step c s (Wake i) = (s, [announce c m]).
-Proof. exact hunted_has_loop. Qed.
-Print Assumptions C13_hunted_has_loop.
-
-(* a loop that has returned stays returned and silent, whatever happens (any state) *)
-Theorem C13_dead_loop_silent : forall c s e i a,
-  loop_is s i a false ->
-  loop_is (fst (step c s e)) i a false /\ step c s (Wake i) = (s, []).
-Proof. intros c s e i a H. split; [apply step_dead_stays; exact H | eapply wake_dead_silent; exact H]. Qed.
+(* a loop that has returned stays returned, and its steps are silent, whatever happens (any state) *)
+Theorem C13_dead_loop_silent : forall c s e i a p,
+  loop_at s i a p -> is_done p = true ->
+  loop_at (fst (step c s e)) i a p /\ (is_loop_event i e = true -> snd (step c s e) = []).
+Proof. exact done_stays. Qed.
 Print Assumptions C13_dead_loop_silent.
 
-(* ---- Close stops all loops ----
-   Full strength: in every run, after a Close NO event emits any frame (loops, receive path, API calls),
-   and every wake-up of a loop is its last (the loop has returned).  Full since the repair of K3 (/repo:
-   ProcessPacket tests h.closed); before it the receive path still sent forged replies after Close
-   (refutation on the unrepaired model: verif commit ae1e0b3). *)
-Theorem C13_close_stops : forall c pre post s e out,
-  In (s, e, out) (trace c (final c init_state (pre ++ [Close])) post) ->
-  out = [] /\
-  forall i lp, e = Wake i -> nth_error (loops (fst (step c s e))) i = Some lp -> alive lp = false.
-Proof. exact close_stops. Qed.
+(* ---- Close stops all loops, under every interleaving ----
+   Once closed (any state, any continuation): what the handler still hands to the connection on its own
+   (public API calls of the caller not counted), plus the loops still standing between check and write at the
+   end, never exceeds the loops standing between check and write when Close returned: at most ONE frame per
+   loop, the one already decided.  "Nothing at all after Close" is refuted by that interleaving.  And every
+   loop ends: its next iteration after Close is silent and final (C13_close_ends_loop). *)
+Theorem C13_close_stops : forall c evs s,
+  closed s = true -> (own_frames (trace c s evs) + pending (final c s evs) <= pending s)%nat.
+Proof. exact close_bound. Qed.
 Print Assumptions C13_close_stops.
 
-Example C13_close_stops_nonvacuous :
-  let c := wit_cfg in
-  outputs c init_state [StartHunt (mkAddr wit_m1 3232235522); Wake 0; Close; Wake 0; Wake 0;
-                        RxArp (mkPkt 1 wit_m1 wit_m1 3232235522 0 3232235531)] =
-    [[]; [announce c wit_m1]; []; []; []; []] /\
-  loop_is (final c init_state [StartHunt (mkAddr wit_m1 3232235522); Wake 0; Close; Wake 0]) 0
-          (mkAddr wit_m1 3232235522) false.
-Proof. exact close_stops_nonvacuous. Qed.
-Print Assumptions C13_close_stops_nonvacuous.
+Theorem C13_close_ends_loop : forall c s a i p x1 x2,
+  closed s = true -> loop_at s i a p -> at_select p = true ->
+  none_of (is_loop_event i) x1 -> none_of (is_loop_event i) x2 ->
+  let sa := final c s x1 in
+  let sb := fst (step c sa (Lookup i)) in
+  let sc := final c sb x2 in
+  snd (step c sa (Lookup i)) = [] /\ snd (step c sc (Check i)) = [] /\
+  loop_at (fst (step c sc (Check i))) i a PDone.
+Proof. exact close_ends_loop. Qed.
+Print Assumptions C13_close_ends_loop.
 
-(* ---- Spec = Model on every run ----
-   The monitor of Spec/ArpSpoof.v is the property text as a checker of observed runs (its own bookkeeping of
-   hunted MACs, offers, Close and loops; clauses: confinement, probe-reject iff, spoof reply iff, StartHunt
-   sends nothing, a loop whose MAC is no longer hunted restores and ends at its wake-up, terminated loops are
-   silent, nothing after Close).  It raises no violation on ANY run of the model.  The same monitor judges
-   the implementation's observations in the correspondence run (column 2 of the dispatch). *)
-Theorem C13_monitor_accepts_model : forall c evs,
-  cfg_ok c ->
-  Forall (fun v => v = []) (sp_run c sp_init (observed (trace c init_state evs))).
-Proof. exact monitor_accepts_model. Qed.
-Print Assumptions C13_monitor_accepts_model.
+Theorem C13_silent_after_close_refuted :
+  exists c pre post s e out f,
+    cfg_ok c /\ In (s, e, out) (trace c (final c init_state (pre ++ [Close])) post) /\
+    is_api_send e = false /\ In f out.
+Proof. exact silent_after_close_refuted. Qed.
+Print Assumptions C13_silent_after_close_refuted.
+
+(* ---- refused writes ----
+   K4 (recorded finding): when the write of an announcement is refused the loop returns and leaves the MAC in
+   the hunt list: hunted, handler open, yet no loop lives — nothing spoofs that MAC again, StartHunt of it is a
+   no-op, and after StopHunt nothing restores it. *)
+Theorem C13_write_error_kills_loop_refuted :
+  exists c evs m,
+    cfg_ok c /\
+    let s := final c init_state evs in
+    closed s = false /\ hunted s m = true /\ (forall i, live s i = false) /\
+    outputs c s [StopHunt m; Lookup 0; Check 0; Send 0] = [[]; []; []; []].
+Proof. exact write_error_kills_loop_refuted. Qed.
+Print Assumptions C13_write_error_kills_loop_refuted.
